@@ -317,6 +317,104 @@ def r5(ctx):
     _include(ctx, sub, 'C09', 'C06-R5')
 
 
+class _Unk(Exception):
+    pass
+
+
+def _select(e, counter, cname):
+    """value of a selection expression over an insertion-ordered counter [(key, count), ...] bound to the source text `cname`: the idioms that
+    pick a representative (most_common, max / min / sorted with key functions, indexing)"""
+    d = dict(counter)
+
+    def keyfn(k):
+        if k is None:
+            return lambda x: x
+        t = src(k)
+        if t == f'{cname}.get' or t == f'{cname}.__getitem__':
+            return lambda x: d[x]
+        if isinstance(k, ast.Lambda) and len(k.args.args) == 1:
+            a = k.args.args[0].arg
+            return lambda x: ev(k.body, {a: x})
+        if isinstance(k, ast.Call) and (dotted(k.func) or '').endswith('itemgetter') and len(k.args) == 1 and isinstance(k.args[0], ast.Constant):
+            return lambda x: x[k.args[0].value]
+        raise _Unk(t)
+
+    def ev(x, env=None):
+        env = env or {}
+        if src(x) == cname:
+            return [k for k, _ in counter]
+        if isinstance(x, ast.Constant):
+            return x.value
+        if isinstance(x, ast.Name) and x.id in env:
+            return env[x.id]
+        if isinstance(x, ast.UnaryOp) and isinstance(x.op, ast.USub):
+            return -ev(x.operand, env)
+        if isinstance(x, ast.Tuple):
+            return tuple(ev(y, env) for y in x.elts)
+        if isinstance(x, ast.Subscript):
+            if src(x.value) == cname:
+                return d[ev(x.slice, env)]
+            b = ev(x.value, env)
+            return b[ev(x.slice, env)]
+        if isinstance(x, ast.Call):
+            f_ = x.func
+            kw = {k.arg: k.value for k in x.keywords}
+            if isinstance(f_, ast.Attribute) and src(f_.value) == cname:
+                if f_.attr == 'most_common':
+                    n = ev(x.args[0], env) if x.args else None
+                    r = sorted(counter, key=lambda kv: -kv[1])      # stable: ties keep insertion order, as Counter.most_common does
+                    return r if n is None else r[:n]
+                if f_.attr == 'items':
+                    return list(counter)
+                if f_.attr == 'keys':
+                    return [k for k, _ in counter]
+                if f_.attr == 'get' and x.args:
+                    return d.get(ev(x.args[0], env))
+            nm = dotted(f_) or ''
+            if nm in ('sorted', 'max', 'min', 'list', 'tuple') and x.args:
+                seq = list(ev(x.args[0], env))
+                if nm in ('list', 'tuple'):
+                    return seq
+                kf = keyfn(kw.get('key'))
+                if nm == 'sorted':
+                    rev = ev(kw['reverse'], env) if 'reverse' in kw else False
+                    return sorted(seq, key=kf, reverse=bool(rev))
+                return max(seq, key=kf) if nm == 'max' else min(seq, key=kf)
+        raise _Unk(src(x)[:40])
+    return ev(e)
+
+
+@rule('C06', 'C06-R6', 'the representative UMI of a molecule is its most frequent UMI and, among equally frequent ones, the one seen FIRST: a representative that '
+                       'flips to a later arrival on a tie makes the next PCR copy (one mismatch from the first UMI, two from the new one) found a second molecule')
+def r6(ctx):
+    import itertools
+    f = ctx.fn(MOLECULE, 'Molecule.update_umi')
+    st = [a for a in walk_no_nested(f) if isinstance(a, ast.Assign) and len(a.targets) == 1 and src(a.targets[0]) == 'self.umi']
+    if len(st) != 1:
+        ctx.emit('C06-R6', False, MOLECULE, f, f'update_umi: {len(st)} assignments of self.umi', key='representative-umi', undecided=True)
+        return
+    e = st[0].value
+    if isinstance(e, ast.Name):
+        dd = [a.value for a in walk_no_nested(f) if isinstance(a, ast.Assign) and len(a.targets) == 1 and src(a.targets[0]) == e.id]
+        e = dd[0] if len(dd) == 1 else e
+    cname = 'self.umi_counter'
+    bad, n = None, 0
+    try:
+        for counts in itertools.product((1, 2, 3), repeat=3):
+            counter = list(zip('ABC', counts))          # insertion order A, B, C
+            n += 1
+            got = _select(e, counter, cname)
+            want = max(counter, key=lambda kv: kv[1])[0]        # first maximum
+            if got != want and bad is None:
+                bad = {'counts in order of first appearance': dict(counter), 'representative': got, 'first most frequent': want}
+    except (_Unk, KeyError, IndexError, TypeError) as ex:
+        ctx.emit('C06-R6', False, MOLECULE, st[0], f'representative `{src(e)[:70]}` uses an idiom the selector evaluator does not know ({ex})', key='representative-umi', undecided=True)
+        return
+    ctx.counters['abstract_cases'] += n
+    ctx.emit('C06-R6', bad is None, MOLECULE, st[0], f'representative `{src(e)[:70]}` on {n} insertion-ordered count vectors: ' + ('the first most frequent UMI' if bad is None else f'differs, e.g. {bad}'),
+             key='representative-umi', witness=bad, what='Molecule.update_umi: tie between equally frequent UMIs is resolved to the later one')
+
+
 META = {
     'text': ('Decides structural clauses: the duplicate bit written by Molecule.write_tags is assigned `rank > 0` to every read of every fragment for '
              'the abstract ranks 0, 1, >=2 on every path (hence independent of flags carried by the input; re-tagging is idempotent in that bit); af, RC and TF '
